@@ -240,6 +240,26 @@ def gen_cases(run):
             sc.append(by_attr[a])
         cases.append(dict(family='scripted-random', cands=cands, scores=sc, maximize=r.random() < 0.5,
                           init=r.choice([None, None, 0.05, 0.5, 0.3, 4.5])))
+    # long candidate lists (the default grid has more than twenty entries): every candidate must be scored, however long the
+    # run of non-improving candidates before a better one
+    for i in range(60 if run.tier == 'quick' else 600):
+        k = r.randint(8, 26)
+        temps = [0.0] + [round(0.01 * (400.0 ** (j / 30.0)), 6) for j in range(31)]
+        cands = r.sample(temps, k)
+        unit = r.choice([1.0, 1.0, 1e-6, 1e3])
+        mx = r.random() < 0.5
+        shape = i % 4
+        if shape == 0:     # random scores
+            sc = [round(r.uniform(0, 3), 3) * unit for _ in cands]
+        else:              # a good candidate early, a long run of worse ones, a strictly better one late
+            good, better, bad = (2.0, 2.5, 1.0) if mx else (1.0, 0.5, 2.0)
+            sc = [(bad + 0.01 * r.randint(0, 20) * (-1 if mx else 1)) * unit for _ in cands]
+            i0 = r.randint(0, 1)
+            sc[i0] = good * unit
+            sc[r.randint(i0 + 6, k - 1)] = better * unit
+            if shape == 3:   # and a tie with the best after it
+                sc[-1] = max(sc) if mx else min(sc)
+        cases.append(dict(family='scripted-random', cands=cands, scores=sc, maximize=mx, init=r.choice([None, None, 0.05, 0.3])))
     n_real = 8 if run.tier == 'quick' else 48
     metrics = [('reg', 'mse'), ('reg', 'rmse'), ('reg', 'mae'), ('class', 'brier'), ('class', 'logloss'), ('class', 'accuracy'), ('class', 'f1')]
     for i in range(n_real):
